@@ -32,6 +32,10 @@ def lambda_wrap(
         if isinstance(branch[0], vyxal.structure.GenericStatement):
             if branch[0].branches[0][0].name in NILADIC_TYPES:
                 return vyxal.structure.Lambda(0, branch)
+            if branch[0].branches[0][0].name != TokenType.GENERAL:
+                # only elements have a table arity; a literal's payload
+                # must not be looked up as if it were an element
+                return vyxal.structure.Lambda(1, branch)
             return vyxal.structure.Lambda(
                 elements.get(branch[0].branches[0][0].value, ("", 1))[1],
                 branch,
